@@ -10,11 +10,20 @@ for sizes 2..65 (odd and even), angle sets (special / uniform / random / unsorte
 all six filters, even filter sizes 2..1024, smooth / noisy / binary / impulse images and
 sinograms, plus batched == per-image, linearity, and theta=0 == column sums of the masked image.
 
+Round 3: + float64 images / sinograms, float64 / int64 / repeated angle tensors, output_size larger than
+the detector, every detector width 1..160[..400] with a windowed filter (padded FFT size), the caller
+Tomography.sirt_recon (tomography_conv.py) vs the same composition with scikit-image; recorded-only
+observations outside the quantified domain (n = 1, non-square, angles outside [0,180], list angles).
+
 CORRESPONDENCE (ties the Coq models to both code bases, output level only — no internals of the
 port are observed, so a refactor that keeps the results keeps the tie):
-    radon    exact Q sinogram of `port_sinogram repaired bilinear` with (c, s) = the float32
-             cos/sin torch computes  vs radon_torch;  `sk_sinogram bilinear` with numpy's float64
-             cos/sin  vs skimage.radon            (dyadic images, n = 2..14)
+    radon    the WHOLE model evaluated and compared INSIDE Coq (booleans + largest deviation printed):
+             `port_sinogram repaired bilinear` with (c, s) = the float32 cos/sin torch computes vs
+             radon_torch;  `sk_sinogram bilinear` with numpy's float64 cos/sin vs skimage.radon
+             (images on the grid 1/4096, n = 2..16, 21, 22, 32, 33 [45, 48, 64])
+    source   harness/translate_C07.py reads filter size / paddings / default output size of
+             iradon_torch from the current source; coq/gen_proofs/C07_GenProperties.v proves them
+             equal to the model for every N >= 1 (fail closed)
     filter   the model's index vector / ramp kernel / window arguments and coefficients per
              filter name and index  ->  2 Re fft(kernel) * window, vs both implementations
     iradon   integer geometry (diagonal, pad_before, padded FFT size, default output size) vs
@@ -1435,15 +1444,21 @@ def run(ctx: Ctx):
     ctx.cov["rule"] = (
         "oracle cases: radon — every size 2..65 (odd/even) x image kind (smooth, uniform noise at amplitudes 1e-3..100, "
         "binary blocks, impulses incl. the disc's boundary pixels, dyadic) x angle set (special multiples of 15/45/90, "
-        "uniform, sorted random, unsorted random, {0,180}, default arange(180)); theta=0 column sums; batches of "
-        "1,2,3,5 vs per-image; linear combinations. filters — 6 names x even sizes (2..66, the padded sizes 64/128/256"
-        "[/512/1024], random up to 600). iradon — every N 2..65 x 6 filters x angle sets incl. theta=None x sinogram "
-        "kind (skimage radon of an image, noise, impulses at the detector ends, constant ones, dyadic) x "
-        "{circle=True, circle=False, circle=True with smaller output_size}; batches; linear combinations. "
-        "correspondence cases: exact-Q model sinograms / reconstructions / filters vs both implementations on dyadic "
-        "inputs (n = 2..14, N = 2..11, filter sizes 2..128[..512]), integer geometry N = 1..99[..399]. A case is "
-        "distinct by (kind, size, image/sinogram kind, angle kind and count, filter, circle, output size, seed); "
-        "non-trivial when size >= 3 (filters: name is not None)")
+        "uniform, sorted random, unsorted random, {0,180}, default arange(180), repeated angles, float64 tensors of "
+        "non-float32 angles, int64 tensors); float64 images; theta=0 column sums; batches of 1,2,3,5 of DIFFERENT images "
+        "vs per-image and vs skimage; linear combinations. filters — 6 names x even sizes (2..66, the padded sizes "
+        "64/128/256[/512/1024], random up to 600). iradon — every N 2..65 x 6 filters x angle sets incl. theta=None x "
+        "sinogram kind (skimage radon of an image, noise, impulses at the detector ends, constant ones, dyadic) x "
+        "{circle=True, circle=False, smaller output_size, LARGER output_size}; padded-FFT-size cases in every run: "
+        "N = 22, 45 (circle) and 32, 64 (no circle) x the four windowed filters, and EVERY width 1..160[..400] x "
+        "circle/not with hann/hamming; float64 sinograms, float64/int64 angle tensors; batches; linear combinations. "
+        "caller — Tomography.sirt_recon(num_iterations=1) (tomography_conv.py) vs the same composition with skimage, "
+        "6[40] cases over sizes / filters / float64 tilt angles. correspondence cases: the WHOLE exact-Q model "
+        "sinograms evaluated and compared inside Coq against both implementations (n = 2..16, 21, 22, 32, 33[, 45, 48, "
+        "64]); exact-Q reconstructions / filters vs both implementations on dyadic inputs (N = 2..9, filter sizes "
+        "2..128[..512]), integer geometry N = 1..99[..399]; the geometry of the CURRENT source re-translated and tied by "
+        "theorem for every N. A case is distinct by (kind, size, image/sinogram kind, angle kind and count, filter, "
+        "circle, output size, dtype, seed); non-trivial when size >= 3 (filters: name is not None)")
     ctx.assumptions += [
         "scikit-image 0.26 (skimage.transform.radon / iradon / _get_fourier_filter, float64) is the reference the "
         "property names; its Coq transcription is itself validated against it on every run (spec-model-correspondence)",
@@ -1464,6 +1479,10 @@ def run(ctx: Ctx):
         "this correspondence run",
         "harness/props/C07.py (generators, tolerances, Python->Coq printers, 2^-40 fixed-point glue), harness/common.py",
         "numpy.fft (ramp kernel -> frequency response, filter -> impulse response in the correspondence)",
+        "harness/translate_C07.py (Python ast -> Gallina for the integer geometry of iradon_torch; fail-closed grammar; "
+        "the idioms int(ceil(sqrt(2) N)), int(floor(sqrt(N**2/2))), int(2**ceil(log2(2N))) are read as exact real "
+        "arithmetic — float64 sqrt / float32 log2 round correctly for the widths compared numerically on every run, "
+        "N <= 400; cross-tested against the sizes the running code passes to get_fourier_filter_torch, N = 1..200)",
     ]
     # the proof obligations (12 s of coqc, mostly Print Assumptions) are checked while the oracle runs
     import threading
